@@ -24,7 +24,7 @@ func init() {
 			"(I) small-distance sweep: every distance 1..64 x 19 lengths around the 16/32-byte vector widths, after `distance` distinct literals and followed by 300 literals (decoded inside the assembly loop); " +
 			"(G) single-match sweep: every length 3..258 (both encodings of 258) x first and last distance of every distance symbol; each x 6 Read-size policies; only streams compress/flate accepts are in scope; non-trivial = the stream has at least one symbol besides end-of-block",
 		Assumptions: []string{"compress/flate defines the expected result", "reference inflater agrees with compress/flate on every stream (checked on every execution; disagreement is a harness error)"},
-		Quick:       TierSpec{MaxDev: -1, Shards: 4, ShardDepth: 3, BudgetS: 150},
+		Quick:       TierSpec{MaxDev: -1, Shards: 4, ShardDepth: 3, BudgetS: 600},
 		Thorough:    TierSpec{MaxDev: -1, Shards: 8, ShardDepth: 3, BudgetS: 1700},
 		Harness:     c02Harness,
 	})
